@@ -66,6 +66,12 @@ M = [
   "                self.builder.ordered_list();\n                self.builder.set_insert(true);\n                let id = self.builder.id();\n", "                self.builder.ordered_list();\n                let id = self.builder.id();\n", {"C01": 1, "C20": 1}),
  ("benign_block_list_local", "crates/liwe/src/graph/sections_builder.rs",
   "                self.builder.bullet_list();\n                self.builder.set_insert(true);\n                let id = self.builder.id();\n", "                self.builder.bullet_list();\n                let id = self.builder.id();\n                self.builder.set_insert(true);\n", {"C07": 0, "C03": 0}),
+ ("line_starts_off_by_one", "crates/liwe/src/markdown/reader.rs",
+  "                .map(|(at, _)| at + 1),", "                .map(|(at, _)| at),", {"C13": 1}),
+ ("line_starts_counts_cr_too", "crates/liwe/src/markdown/reader.rs",
+  "                .filter(|(_, byte)| *byte == b'\\n')", "                .filter(|(_, byte)| *byte == b'\\n' || *byte == b'\\r')", {"C13": 1}),
+ ("benign_line_starts_matches", "crates/liwe/src/markdown/reader.rs",
+  "                .filter(|(_, byte)| *byte == b'\\n')", "                .filter(|(_, byte)| matches!(byte, b'\\n'))", {"C13": 0}),
  ("update_key_skips_blank", "crates/liwe/src/graph.rs",
   "        self.from_markdown(key, content, MarkdownReader::new());\n\n        self", "        if !content.is_empty() {\n            self.from_markdown(key, content, MarkdownReader::new());\n        }\n\n        self", {"C20": 1, "C04": 1}),
  # benign refactorings: must not alarm
@@ -113,9 +119,11 @@ def main():
             try:
                 for prop, want in exp.items():
                     env = dict(os.environ, VERIF_REPO=scratch, VERIF_SELFTEST="1")
-                    r = subprocess.run([os.path.join(VERIF, "check"), prop, "--no-kani"], env=env, capture_output=True, text=True)
+                    # Verus decides almost every entry; only the entries aimed at a Kani-only function run the Kani groups too
+                    cmd = [os.path.join(VERIF, "check"), prop] + ([] if "line_starts" in name else ["--no-kani"])
+                    r = subprocess.run(cmd, env=env, capture_output=True, text=True)
                     good = (r.returncode == want)
-                    ob = [l for l in r.stdout.split("\n") if l.startswith("failed obligation") or l.startswith("UNDECIDED") or l.startswith("   ")]
+                    ob = [l for l in r.stdout.split("\n") if l.startswith("failed obligation") or l.startswith("UNDECIDED") or l.startswith("   ") or l.startswith("VIOLATION")]
                     print("%s %-38s %s want=%d got=%d %s" % ("ok  " if good else "MISS", name, prop, want, r.returncode, "; ".join(ob)[:300]))
                     results.append((name, prop, want, r.returncode))
                     ok = ok and good
